@@ -211,7 +211,8 @@ def _check(ctx: Ctx, only=None) -> None:
         fi = p.func(q)
         ctx.analysed(fi)
         ws = [w for w in eff.writes("AbsoluteSequence", "cutoff") if w.kind == "attr"]
-        ctx.floor("cutoff attribute stores", len(ws), 1)
+        ctx.require("CUT", f"{q}: the shortened end is written to the note-off", len(ws), 1, function=q,
+                    construct="cutoff never writes a new end time", message="no store to a message attribute: over-long notes keep their length", file=fi.file, node=fi.node)
         mx, red = fi.params[1], fi.params[2]
         for w in ws:
             t = w.node.target if isinstance(w.node, ast.AugAssign) else w.node.targets[0]
@@ -271,15 +272,15 @@ def _check(ctx: Ctx, only=None) -> None:
         big = None
         for n in fi.node.body:
             # the branch that stretches: an `if` on the factor whose body loops over the messages
-            if isinstance(n, ast.If) and isinstance(n.test, ast.Compare) and fac in {x.id for x in ast.walk(n.test) if isinstance(x, ast.Name)} \
+            if isinstance(n, ast.If) and fac in {x.id for x in ast.walk(n.test) if isinstance(x, ast.Name)} \
                     and any(isinstance(x, ast.For) and attr_chain(x.iter) == ["self", "_messages"] for x in n.body):
                 big = n
                 break
         if big is None:
             raise AnalysisError(f"{q}: the branch that multiplies the waits (an `if` on `{fac}` looping over the messages) was not found")
         t_ = big.test
-        okg = len(t_.ops) == 1 and src(t_.left) == fac and isinstance(t_.comparators[0], ast.Constant) and t_.comparators[0].value == 1 \
-            and isinstance(t_.ops[0], (ast.Gt, ast.GtE))
+        okg = isinstance(t_, ast.Compare) and len(t_.ops) == 1 and src(t_.left) == fac and isinstance(t_.comparators[0], ast.Constant) \
+            and t_.comparators[0].value == 1 and isinstance(t_.ops[0], (ast.Gt, ast.GtE))
         ctx.check(okg, "SCALE", f"{q}: the stretching branch is taken for every factor above 1 (`{short(t_)}`)", function=q,
                   construct="scale does not multiply the waits for every factor greater than 1",
                   message=f"`{short(t_)}`: some integer factors above 1 fall through to the re-barring path for factors below 1", file=fi.file, node=big)
